@@ -14,7 +14,7 @@
      textDocument/formatting     server.rs:273-285   Library.to_markdown
      textDocument/references     server.rs:521-565   Index getters, Index.location_of
      textDocument/prepareRename  server.rs:391-404   Pos.link_at, Pos.key_range
-     textDocument/rename         server.rs:406-519   Rename.handle_rename
+     textDocument/rename         server.rs:395-502   Rename.handle_rename
      workspace/executeCommand    command.rs          NOT modelled (LLM): a function of the configuration
      anything else               router.rs:249-251   `panic!("unhandled request")`
    and the two notifications (server.rs:119-133, database.rs:106-116: update_key, content, cached
@@ -40,7 +40,7 @@ Record cmd := Cmd { cmd_new : string; cmd_prompt : string; cmd_target : string }
 Record config := CF {
   cf_opts : opts;                          (* configuration.markdown *)
   cf_tables : string -> list string;       (* oracle: the text of the tables of a note (pulldown-cmark-to-cmark) *)
-  cf_fx : Rename.fixes;                    (* which rename repairs the tree has (/repo: FX false true true) *)
+  cf_fx : Rename.fixes;                    (* which rename repairs the tree has (/repo: FX false true true true) *)
   cf_pos : IweV.Pos.variant;               (* which position repairs the tree has (/repo: Pos.repaired) *)
   cf_base : string;                        (* ServerConfig.base_path: the library directory *)
   cf_helix : bool;                         (* lsp_client == LspClient::Helix *)
@@ -62,7 +62,7 @@ Fixpoint mapm {A B} (f : A -> res B) (l : list A) : res (list B) :=
 Definition key_exists (g : graph) (k : string) : bool :=
   match alookup k (gr_keys g) with Some _ => true | None => false end.
 
-(* BasePath::key_to_url / name_to_url (server.rs:57-70):
+(* BasePath::key_to_url (server.rs:56-58):
    `Url::from_file_path(self.dir.join(..)).expect("to work")`; Err for a relative path *)
 Definition key_url (base key : string) : res string :=
   match Url.file_uri (base +++ SEPS +++ to_path key) with
@@ -340,8 +340,9 @@ Definition handle_references (base : string) (s : gstate) (key : string) : res (
 
 (* ---------- textDocument/rename ------------------------------------------------------------------------------ *)
 
-(* the operations with their URIs: key_to_url for the notes that exist, name_to_url for the new one
-   (both `Url::from_file_path(dir.join(..)).expect("to work")`) *)
+(* the operations with their URIs: key_to_url for the notes that exist and - since the one-key
+   repair of handle_rename - for the new one (`new_key.to_full_url`); as found the new file was
+   name_to_url(new_name), the same `Url::from_file_path(dir.join(..)).expect("to work")` *)
 Definition op_url (base : string) (o : Rename.op) : res Rename.op :=
   match o with
   | Rename.OpOverride k t => do u <- key_url base k; Ok (Rename.OpOverride u t)
@@ -465,9 +466,6 @@ Definition link_end_ok (v : IweV.Pos.variant) (docs : list (string * doc)) (key 
               end
   end.
 
-(* the resolved name of the new note is the key the patch graph was given (server.rs:465 vs 484) *)
-Definition rename_target_ok (key new_name : string) : bool :=
-  String.eqb (from_rel_link_url new_name (key_parent key)) (key_from_file_name new_name).
 
 (* The classifier.  ServerFacts.C12_handler_panic_domain: at every state reached by Server::new on
    notes with distinct keys and any notifications, `handle cf sv r = Panic _` implies
@@ -479,9 +477,10 @@ Definition rename_target_ok (key new_name : string) : bool :=
      4  the tree before d2c35b3 (`line_range` of a list whose first item is empty): definition,
         prepare rename, rename;
      5  prepare rename on a link whose end column is 0 (`end.character - 1`);
-     6  rename whose new name resolves, from the directory of the note under the cursor, to another
-        key than the one the patch was built under (a note in a sub-directory), and - before
-        fix-rename-dangling - a link to no note;
+     6  rename in a tree without the one-key repair (fx_subdir: before it, a new name that resolves,
+        from the directory of the note under the cursor, to another key than the one the patch was
+        built under - every note in a sub-directory) or without fix-rename-dangling (a link to no
+        note); with both repairs (/repo) no rename request is in the class;
      7  executeCommand: whatever the (unmodelled) command does;  8  an unknown method. *)
 Definition may_panic (cf : config) (sv : sstate) (r : request) : bool :=
   let g := gs_graph (ss_gs sv) in
@@ -501,7 +500,7 @@ Definition may_panic (cf : config) (sv : sstate) (r : request) : bool :=
       negb (IweV.Pos.v_empty_item (cf_pos cf)) || negb (link_end_ok (cf_pos cf) (ss_docs sv) key p)
   | RRename key p new_name =>
       negb (IweV.Pos.v_empty_item (cf_pos cf)) || negb (base_ok (cf_base cf))
-      || negb (Rename.fx_dangling (cf_fx cf)) || negb (rename_target_ok key new_name)
+      || negb (Rename.fx_dangling (cf_fx cf)) || negb (Rename.fx_subdir (cf_fx cf))
   | RCommand c =>
       negb (is_ok (cf_command cf (ss_gs sv) c)) || negb (base_ok (cf_base cf))
   | RUnknown => true
